@@ -748,7 +748,11 @@ impl PaymentState {
             return;
         }
 
-        self.amount_received_msat += req.htlc.amount_msat;
+        // The sum of sender controlled amounts must not overflow (and panic
+        // while the payments lock is held).
+        self.amount_received_msat = self
+            .amount_received_msat
+            .saturating_add(req.htlc.amount_msat);
         self.cltv_expiry = std::cmp::min(req.htlc.cltv_expiry, self.cltv_expiry);
         self.htlcs.push(sender);
         if !self.is_ready
